@@ -157,6 +157,13 @@ def _life(p0, p1, p2, edge, other, da, db):
         return 'C09/workflow-never-finishes-on-its-reservation'
     if c.is_observation_provisioned('A') or c.get_idle_resources('A'):
         return 'C09/reservation-not-released-after-last-task'
+    # the bound on the number of reservations must survive a finished workflow: let further workflows ask for machines
+    c.release_batch_resources('A')           # the Scheduler releases once more when it drops the finished observation
+    env.run(env.now + 3)
+    for name in ('C', 'D', 'E'):
+        alg._provision_resources(c, Plan(name))
+        if len(c._resources['idle']) > 2:
+            return 'C09/more-reservations-than-partitions-after-a-release'
     if len(c._resources['available']) + len(c._resources['ingest']) + len(c._resources['occupied']) + sum(len(v) for v in c._resources['idle'].values()) != 3:
         return 'C09/release-lost-or-duplicated-a-machine'
     return None
